@@ -240,6 +240,30 @@ class ZkFakeClient:
     def restart(self):
         return None
 
+    def flap(self):
+        """The connection drops and comes back within the session timeout: listeners see
+        SUSPENDED, then CONNECTED; the session, its ephemeral nodes and its watches survive.
+        Work the listeners spawn (kazoo watch recipes re-read their node) is joined before
+        returning, so the caller stays deterministic."""
+        spawned = []
+        orig = self.handler.spawn
+
+        def spawn(func, *a, **kw):
+            t = orig(func, *a, **kw)
+            spawned.append(t)
+            return t
+        self.handler.spawn = spawn
+        try:
+            for st in (KazooState.SUSPENDED, KazooState.CONNECTED):
+                self.state = st
+                for listener in list(self.listeners):
+                    listener(st)
+        finally:
+            self.handler.spawn = orig
+        for t in spawned:
+            t.join()
+        self.server.deliver()
+
     def add_listener(self, listener):
         self.listeners.append(listener)
 
